@@ -2,6 +2,7 @@
 import Relic.Model.RedBlack
 import Relic.Spec.Cfb
 import Relic.Driver.C18W
+import Relic.Driver.C18B
 namespace Relic.Driver.C18
 open Relic Relic.RedBlack
 
@@ -72,6 +73,7 @@ def handle : List String → String
     match fromHex inh with
     | some ib => s!"ok {verdict (Spec.Cfb.validate ib.toArray)}"
     | none => "bad-op"
+  | "wbm" :: rest => Relic.Driver.C18B.handle rest
   | ops => Relic.Driver.C18W.handle ops
 
 end Relic.Driver.C18
